@@ -236,6 +236,8 @@ ViewObs(n) ==
 
 Prog(steps) == [steps |-> steps]
 
+SplitHeads == {<<97, 195>>, <<226, 130>>, <<226>>, <<240, 159, 152>>, <<240>>, <<97>>}
+SplitTails == {<<169>>, <<172, 98>>, <<130, 172>>, <<128>>, <<159, 152, 128, 98>>, <<98>>}
 ViewTrees ==
   IF Scope \notin {"c07"} THEN {} ELSE
   BinLeaves
@@ -244,6 +246,12 @@ ViewTrees ==
   \cup {Replace(a, <<Repl(0, 1, <<cX>>)>>) : a \in BinLeaves}
   \cup {Cached(a) : a \in BinLeaves}
   \cup Pairs \cup ReplOverLeaf2 \cup Wrapped \cup ManyPieces \cup ResliceTrees
+  \* adjacent binary leaves that split a multi-byte sequence between them: the text of the whole is the
+  \* concatenation of the children's (lossy) texts, not the lossy text of the joined bytes
+  \cup {CC(<<Raw(s1, a), Raw(s2, b)>>) : s1 \in {"buf", "rawbuf"}, s2 \in {"buf", "rawbuf"},
+                                         a \in SplitHeads, b \in SplitTails}
+  \cup {CC(<<Raw("buf", a), Raw("rawbuf", <<>>), Raw("buf", b)>>) : a \in SplitHeads, b \in SplitTails}
+  \cup {Cached(CC(<<Raw("buf", a), Raw("rawbuf", b)>>)) : a \in SplitHeads, b \in SplitTails}
   \cup {[k |-> "concat", mode |-> "boxed", ch |-> <<Orig(<<cA>>)>>,
          adds |-> <<a, Raw("str", <<NL>>)>>] : a \in BinLeaves}
   \cup {[k |-> "concat", mode |-> "typed",
@@ -716,6 +724,9 @@ GSecond(f) ==
   {GSeg(gl, gc, o, red, pre) : gl \in {f.gl, f.gl + 2}, gc \in {0, 1, 16},
      o \in {<<-1, 0, 0, -1>>, <<0, 1, 0, -1>>, <<1, 3, 2, 0>>}, red \in BOOLEAN,
      pre \in {<<>>, <<COMMA>>}}
+CommaBeforeSemi(str) ==
+  {SubSeq(str, 1, i - 1) \o c \o SubSeq(str, i, Len(str)) :
+     i \in {j \in 1..Len(str) : str[j] = SEMI}, c \in {<<COMMA>>, <<COMMA, COMMA>>}}
 GrammarStrings ==
   {Spell(<<f>>) : f \in GFirst}
   \cup UNION {{Spell(<<f, g>>) : g \in GSecond(f)} : f \in GFirst}
@@ -725,6 +736,9 @@ GrammarStrings ==
           pre \in {<<>>, <<COMMA>>, <<SEMI>>, <<SEMI, SEMI>>, <<COMMA, COMMA>>},
           suf \in {<<>>, <<COMMA>>, <<SEMI>>, <<SEMI, COMMA>>}}
   \cup {<<>>, <<SEMI>>, <<COMMA>>, <<SEMI, SEMI, SEMI>>}
+  \* an empty segment directly in front of a line end (a trailing comma on a line that has left column 0):
+  \* the next line starts at column 0 all the same
+  \cup UNION {UNION {CommaBeforeSemi(Spell(<<f, g>>)) : g \in GSecond(f)} : f \in GFirst}
 
 VlqBatches(bound, size) ==
   {Prog(<<[op |-> "vlq_batch", lo |-> lo, hi |-> lo + size - 1, base |-> 1048576]>>) :
